@@ -43,7 +43,8 @@ META = {
             "it was loaded from; an unencrypted OpenSSH-format file whose two check integers differ must not load.",
     "note": "bcrypt.kdf is memoised and refused above 64 rounds from the harness side (a flipped rounds field "
             "would otherwise run for hours; bcrypt itself is trusted); PKey.from_path is exercised in thorough "
-            "with the exception-type clause switched off (it documents cryptography's exceptions)",
+            "on the unencrypted files with the exception-type clause switched off (it documents cryptography's "
+            "exceptions)",
     "design_ref": "4/C37",
 }
 
@@ -448,7 +449,9 @@ def loaders_for(fid, tier, idx):
         out += [(c, "file") for c in others]
     if idx % 8 == 0:
         out.append((native, "fileobj"))
-    if tier == "thorough" and idx % 8 == 4:
+    if tier == "thorough" and idx % 8 == 4 and FSPEC[fid][3] is None:
+        # never with a passphrase: cryptography would run the (un-shimmed) bcrypt KDF with whatever round
+        # count a mutated file asks for
         out.append((None, "from_path"))
     return out
 
